@@ -792,7 +792,11 @@ func (w *e2eWorld) describe() []string {
 	for i, list := range w.pubs {
 		var ms []string
 		for _, m := range list {
-			ms = append(ms, fmt.Sprintf("%s(id=%q type=%q data=%q topics=%s)", m.tag, m.id, m.typ, m.data, fmtTopics(m.topics)))
+			d := m.data
+			if len(d) > 48 {
+				d = fmt.Sprintf("%s…(%d bytes)", d[:48], len(d))
+			}
+			ms = append(ms, fmt.Sprintf("%s(id=%q type=%q data=%q topics=%s)", m.tag, m.id, m.typ, d, fmtTopics(m.topics)))
 		}
 		out = append(out, fmt.Sprintf("pub%d: %s", i, strings.Join(ms, " ")))
 	}
